@@ -31,7 +31,7 @@ func init() {
 // ---------------------------------------------------------------------------------------------
 // BuildInfoLabels / sanitizeLabelName (C20)
 
-var labelKeyPool = []string{"app", "team", "app.kubernetes.io/name", "app.kubernetes.io/instance", "extendeddaemonset.datadoghq.com/name",
+var labelKeyPool = []string{"name", "namespace", "Name", "app", "team", "app.kubernetes.io/name", "app.kubernetes.io/instance", "extendeddaemonset.datadoghq.com/name",
 	"a-b", "a_b", "a.b", "a/b", "x", "Z9", "tier-1", "tier.1", "é", "k8s-app", "_u", "0n"}
 
 func streamLabels(r *rand.Rand, i int, tier string) *Case {
